@@ -250,6 +250,16 @@ theorem targeted (s : St) (i : Nat) (k : Kind) (hi : i < s.qs.length) :
   simp only [step, hi, if_true]
   exact updAt_get_eq _ _ _
 
+/-- `targeted` needs no hypothesis on the index: an operation aimed at a queue that does not exist
+    changes nothing (`Driver.Enqueue` on a queue the driver does not know is not modelled as a fault) -/
+theorem targeted_any_index (s : St) (i : Nat) (k : Kind) :
+    (step s (.enq i k)).qs[i]? = (s.qs[i]?).map (enqQueue s.nextId k) ∧
+    (step s (.rsp i)).qs[i]? = (s.qs[i]?).map rspQueue := by
+  by_cases hi : i < s.qs.length
+  · exact targeted s i k hi
+  · refine ⟨?_, updAt_get_eq _ _ _⟩
+    simp [step, hi]
+
 example : (run (init 2) [.enq 0 .kern, .enq 1 .noop, .enq 0 .noop, .tick, .tick, .rsp 0, .tick]).qs.map showQ
     = ["/1,3/1,3", "/2/2"] := by decide
 
